@@ -25,13 +25,6 @@ Proof.
   injection E as E. apply DecimalN.Unsigned.to_uint_inj. exact E.
 Qed.
 
-Fixpoint has_prefix (p s : name) : bool :=
-  match p, s with
-  | [], _ => true
-  | a :: p', b :: s' => N.eqb (code a) (code b) && has_prefix p' s'
-  | _ :: _, [] => false
-  end.
-
 Lemma has_prefix_app : forall p x, has_prefix p (p ++ x) = true.
 Proof. induction p as [|a p IH]; intro x; simpl; auto. rewrite N.eqb_refl. apply IH. Qed.
 
